@@ -182,6 +182,8 @@ class CoqSkel:
             us = filter_urls(at['filter'])
             if us is not None:
                 a.append('AUrls [%s]' % '; '.join('(%d, %d)' % self.split(u) for u in us))
+        if tag == 'g' and 'style' in at:
+            a.append('AStyle')
         h = at.get('xlink:href')
         if h is not None:
             if h.startswith('#'):
@@ -310,6 +312,12 @@ def classify(r, w, src=''):
     out += number_problems(r['bad_numbers'], src)
     if r['reparse'] is not None:
         out.append((None, "the written text does not parse again: %s" % r['reparse']))
+    elif r.get('dims_a') and r.get('dims_b') and any(
+            not (isinstance(x, (int, float)) and isinstance(y, (int, float)) and abs(x - y) <= 1e-4 * max(abs(x), abs(y), 1e-30))
+            for x, y in zip(r['dims_a'], r['dims_b'])):
+        # width / height are written with `{}` (shortest round-trip f32), whatever the precision options: Tree::size() must
+        # come back unchanged
+        out.append((None, "the re-parsed document size is %s, the original Tree::size() is %s" % (r['dims_b'], r['dims_a'])))
     elif r['size_a'] != r['size_b'] and min(w.get('cp', 8), w.get('tp', 8)) >= 5:
         # (low precisions are documented to be lossy: the size is only compared from 5 digits on)
         a, b = r['size_a'], r['size_b']
@@ -487,7 +495,11 @@ def run(ctx):
     extra.append('<svg %s width="20" height="20"><linearGradient id="pre-g"><stop offset="0" stop-color="red"/><stop offset="1" stop-color="blue"/>'
                  '</linearGradient><clipPath id="pre-pre-c"><rect width="9" height="9"/></clipPath>'
                  '<rect id="pre-" width="10" height="10" fill="url(#pre-g)" clip-path="url(#pre-pre-c)"/></svg>' % NS)
-    forced = {len(wit) + len(extra) - 1: 'pre-'}
+    forced = {len(wit) + len(extra) - 1: [dict(prefix='pre-')]}
+    extra += refgen.group_attr_docs()
+    for sd, overrides in refgen.size_docs():
+        extra.append(sd)
+        forced[len(wit) + len(extra) - 1] = overrides
     extra += refgen.crafted_docs()
     docs = ['@' + f for f in wit] + extra + ['@' + f for f in corpus] + gen_docs
     labels = [os.path.relpath(f, vlib.VERIF) for f in wit] + ['extra#%d' % i for i in range(len(extra))] + \
@@ -499,13 +511,13 @@ def run(ctx):
     esc_variants = ['é-ü_', 'q"\'', 'a&<', 'p q', 'x)']
     cases = []
     for k, d in enumerate(docs):
-        for j in range(per_doc):
+        for j in range(max(per_doc, len(forced.get(k, [])))):
             w = gen_wopts(rng, k + j)
             w['pt'] = bool(j % 2)
             if w['prefix'] == PREFIXES['esc']:
                 w['prefix'] = rng.choice(esc_variants)
             if k in forced:
-                w['prefix'] = forced[k]
+                w.update(forced[k][j % len(forced[k])])
             if k < nwit:
                 # the witnesses of fixed defects run with safe prefixes and with precisions above 12
                 w['prefix'] = [None, 'pre-', 'é-ü_'][(k + j) % 3]
